@@ -91,8 +91,8 @@ func genRigCase(r *rng.R) rigIn {
 				}
 				pp := rigParam{name: fmt.Sprintf("p%d", len(params)), ty: ty, loc: "Path"}
 				pp.wire = pp.name
-				if r.Chance(1, 3) {
-					pp.wire = "w" + pp.name
+				if r.Chance(1, 2) {
+					pp.wire = rng.Pick(r, []string{"w", "w-", "w_", "w-"}) + pp.name
 				}
 				if r.Bool() || leadUsed {
 					params = append(params, pp)
